@@ -117,7 +117,8 @@ def tokens(text):
 
 class C19(Prop):
     ID = "C19"
-    THEOREMS = ["C19_parser_total", "C19_parser_output_bounded",
+    THEOREMS = ["C19_parser_total", "C19_parser_output_bounded", "C19_parser_fuel_independent",
+                "C19_enum_loop_unrepaired_diverges",
                 "C19_generated_field_count", "C19_generated_field_count_rest", "C19_generated_field_count_bed3_line",
                 "C19_parse_generated", "C19_header_field_count", "C19_header_field_count_tool",
                 "C19_supplied_schema_verbatim", "C19_stored_is_supplied", "C19_write_pre_total", "C19_default_schema"]
@@ -179,7 +180,7 @@ class C19(Prop):
         self.nstrings = 0
         out = []
         # 1. the generator
-        ns = list(range(0, 41)) + ([41, 60, 100] if quick else list(range(41, 61)) + [100, 255, 1000, 5000])
+        ns = list(range(0, 41)) + ([41, 60, 100] if quick else list(range(41, 61)) + [100, 255])
         for n in ns:
             rest = "\t".join(rng.choice(["x", "1", "name", "0,1,", "+"]) for _ in range(n))
             out.append((sx([0, rest.encode()]), ["gen", "gen-n<=40" if n <= 40 else "gen-n>40"]))
@@ -191,16 +192,16 @@ class C19(Prop):
         schemas = [g.schema() for _ in range(nschema)]
         for text, counts in schemas:
             out.append((sx([1, text.encode(), [counts]]), ["grammar", f"decls={len(counts)}"]))
-        ntrunc = 6 if quick else 150
+        ntrunc = 6 if quick else 60
         for text, _ in [g.schema(maxf=4) for _ in range(ntrunc)]:
             b = text.encode()
             for k in range(len(b) + 1):
                 out.append((sx([1, b[:k], []]), ["truncation"] + (["empty"] if k == 0 else [])))
-        nmut = 40 if quick else 600
+        nmut = 40 if quick else 300
         for mi in range(nmut):
             text, _ = g.schema(maxf=4)
             toks = tokens(text)
-            exhaustive = (not quick) and mi < 40
+            exhaustive = (not quick) and mi < 5
             positions = range(len(toks)) if exhaustive else [rng.randrange(len(toks)) for _ in range(25 if quick else 60)]
             for i in positions:
                 muts = []
